@@ -209,6 +209,16 @@ pub fn run(ctx: &Ctx) -> Report {
             let mut m = b.clone(); m.extend_from_slice(&b[c.start..c.end]); run(m, acc, "chunk_edits");
             let mut m = b[..c.start].to_vec(); m.extend_from_slice(&b[c.end..]); m.extend_from_slice(&b[c.start..c.end]); run(m, acc, "chunk_edits");
         }
+        // relational edits: one code block re-addressed relative to another (same start, inside it at every offset near its ends and its middle,
+        // just before / just after it, overlapping its end), for every ordered pair of code blocks
+        let code: Vec<&Chunk> = chunks.iter().filter(|c| b[c.start] == 0 && c.fields.len() >= 2).collect();
+        for x in &code { for y in &code {
+            if x.start == y.start { continue; }
+            let (ox, lx, ly) = (get(b, &x.fields[0]) as i64, get(b, &x.fields[1]) as i64, get(b, &y.fields[1]) as i64);
+            for d in [0i64, 1, 2, lx / 2, lx - ly - 1, lx - ly, lx - ly + 1, lx - 1, lx, lx + 1, -1, -ly, -ly + 1, -ly - 1] {
+                let mut m = b.clone(); put(&mut m, &y.fields[0], ((ox + d) & 0xFFFF) as u64); run(m, acc, "relational_block_edits");
+            }
+        } }
         if ctx.quick() {
             // pairs of 8-byte fields (line numbers, indices, lengths) at their extreme values
             let wide: Vec<&Field> = fields.iter().filter(|f| f.len == 8).collect();
